@@ -81,7 +81,7 @@ theorem not_self_or_ancestor {X : Forest} {p c : Nat} {t : HTree} (nd : X.allHan
     (hg : X.get? c = some t) (hpt : p ∉ handles t) :
     (p = c || (X.ancestors p).contains c) = false := by
   have htc : t.handle = c := (findList?_some X.roots t hg).1
-  have h1 : p ≠ c := fun e => hpt (e ▸ htc ▸ handle_mem_handles t)
+  have h1 : p ≠ c := fun e => hpt (e ▸ htc ▸ fs_handle_mem_handles t)
   have h2 : (X.ancestors p).contains c = false := by
     cases h : (X.ancestors p).contains c with
     | false => rfl
